@@ -47,6 +47,8 @@ PKind(j) == IF j = 1 THEN "main" ELSE pscript[PSite(j)[1]][PSite(j)[2]].k
 RECURSIVE PLeader(_)
 PLeader(j) == IF PKind(j) = "C" THEN PLeader(PPar(j)) ELSE j
 PGroup(j) == { i \in PTasks : PLeader(i) = PLeader(j) }
+\* the task has exec'ed a new image (which runs the rest of its script)
+PExecd(j) == \E i \in 1..(ppc[j] - 1) : i \in DOMAIN pscript[j] /\ pscript[j][i].k = "Z"
 PCreated(k) == { j \in PTasks : j # 1 /\ PPar(j) = k /\ PSite(j)[2] < ppc[k] }
 
 PInit(s, d) ==
@@ -108,7 +110,11 @@ Step(k, op, r) ==
   /\ CASE op = "U" -> r = 0 /\ exe' = exe \cup {POp(k).a} /\ UNCHANGED <<st, res>>
        [] op = "S" -> r = 1 /\ UNCHANGED <<exe, st, res>>
        [] op \in {"F", "C"} -> r = 1 /\ st[POp(k).n] # "unborn" /\ UNCHANGED <<exe, st, res>>
-       [] op = "V" -> r = 1 /\ st[POp(k).n] = "dead" /\ UNCHANGED <<exe, st, res>>
+       [] op = "V" -> r = 1 /\ (st[POp(k).n] = "dead" \/ PExecd(POp(k).n)) /\ UNCHANGED <<exe, st, res>>
+       \* an execve the filter allows takes effect: the new image runs (it reports that itself); when a
+       \* thread execs, the other threads of its process are gone
+       [] op = "Z" -> /\ r = 0 /\ UNCHANGED <<exe, res>>
+                      /\ st' = [j \in PTasks |-> IF j # k /\ j \in PGroup(k) /\ st[j] # "unborn" THEN "dead" ELSE st[j]]
        [] op = "W" -> /\ r = 0 /\ UNCHANGED <<exe, st, res>>
                       /\ \A j \in PCreated(k) : PGone(j) /\ (PLeader(j) \in fkc => res.k # "none")
        [] op \in {"Y", "P"} -> UNCHANGED <<exe, st, res>>
@@ -123,7 +129,7 @@ Step(k, op, r) ==
 \* the implicit end of a script
 EndStep(k, op, r) ==
   /\ st[k] = "run" /\ POp(k).k = "END" /\ r = 0
-  /\ IF PKind(k) = "C" THEN op = "E" /\ st' = [st EXCEPT ![k] = "dead"] /\ UNCHANGED res
+  /\ IF PKind(k) = "C" /\ ~PExecd(k) THEN op = "E" /\ st' = [st EXCEPT ![k] = "dead"] /\ UNCHANGED res
                        ELSE op = "X" /\ EndGroup(k, "exit", 0)
   /\ ppc' = [ppc EXCEPT ![k] = @ + 1]
   /\ UNCHANGED <<pscript, pdec, pcnt, pd, exe, fkc>>
@@ -146,6 +152,13 @@ StepUnseen(k) ==
   /\ exe' = exe \cup {POp(k).a}
   /\ st' = [st EXCEPT ![k] = "dead"]
   /\ UNCHANGED <<pscript, pdec, pcnt, ppc, pd, res, fkc>>
+
+\* an exec took effect (a vfork parent is released, sibling threads are gone) but the new image was
+\* killed -- the run was over -- before it could tell
+ExecUnseen(k) ==
+  /\ st[k] = "run" /\ POp(k).k = "Z"
+  /\ st' = [j \in PTasks |-> IF j \in PGroup(k) /\ st[j] # "unborn" THEN "dead" ELSE st[j]]
+  /\ UNCHANGED <<pscript, pdec, pcnt, ppc, pd, exe, res, fkc>>
 
 \* the verdict the property demands for the way the run ended
 Verdict(status, exit) ==
